@@ -9,9 +9,9 @@ RULE = ("parameter sets = switch vector x magnitudes: every on/off combination o
         "combinations, enumerated exhaustively (x1 magnitude draw quick, x4 thorough) plus Hypothesis-sampled sets; "
         "magnitudes: centres 0-4096 px, |pixel| 10-200 um, distance 5e4-1e6 um, tilts +-0.2 rad, wedge/chi +-30 deg, "
         "|t|<=1000 um, wavelength 0.1-1.5 A; 24 peaks per set anywhere on a 4096^2 detector incl. the pixel "
-        "nearest the beam centre, omega in [-720,720]; oracle = geometry written in the harness from the "
+        "nearest the beam centre, omega in [-720,720], one set in 16 with integer-typed sc/fc/omega arrays; oracle = geometry written in the harness from the "
         "documentation, compared with transform.py (Python), Ctransform / raw C kernels, columnfile fast and "
-        "slow routes, numba point_by_point copy, get_local_gv; non-trivial = >=3 switches on, or omegasign=-1, "
+        "slow routes, numba point_by_point copy, get_local_gv, PixelLUT; non-trivial = >=3 switches on, or omegasign=-1, "
         "or an off-diagonal flip, or (chi!=0 and t!=0); distinct = switch index x magnitude seed")
 ASSUMPTIONS = ["tolerances: lab coordinates 1e-12*distance; g and k 1e-11/wavelength absolute (the C route forms "
                "cos(2theta)-1 and loses relative accuracy near the direct beam); tth 1e-9 deg; eta compared as "
@@ -65,6 +65,11 @@ def params_from(index, mseed):
     om = rng.uniform(-720, 720, NPK)
     om[2] = 0.0
     om[3] = 180.0
+    if index % 16 == (mseed + 3) % 16:
+        # integer typed columns (pixel indices, whole degrees), as read from an integer HDF column
+        sc = np.rint(sc).astype(np.int64)
+        fc = np.rint(fc).astype(np.int64)
+        om = np.rint(om).astype(np.int64)
     return p, sc, fc, om
 
 
@@ -250,6 +255,10 @@ def check(case, rec=None):
             else:
                 c.g(route, np.array([cf2.gx, cf2.gy, cf2.gz]).T)
     # ---- (iv) numba copy (no omegasign: compared on the omega it is given; xpos folded into distance)
+    if sc.dtype.kind == "i":
+        if rec is not None:
+            rec.exclude("numba copy not called with integer arrays (numba refuses them with a TypingError)")
+        sc, fc, om = sc.astype(float), fc.astype(float), om.astype(float)
     p1 = dict(p, omegasign=1.0)
     xpos = np.full(NPK, 0.0) if index % 2 else np.linspace(-300, 300, NPK)
     refn = None
@@ -320,12 +329,34 @@ def check(case, rec=None):
         c.g("point_by_point.get_local_gv", r[0], gl)
     else:
         c.fails.append(exc_failure("point_by_point.get_local_gv", r))
+    # ---- (vii) PixelLUT: per-pixel table of a small image (no translation, omega not used)
+    if index % 8 == mseed % 8:
+        shp = (5 + index % 4, 6 + index % 3)
+        ok, lut = guard(transform.PixelLUT, dict(pk, shape=shp))
+        if ok:
+            ss, ff = np.mgrid[0:shp[0], 0:shp[1]]
+            p0 = dict(p, t_x=0.0, t_y=0.0, t_z=0.0)
+            rl = O.geo_forward(ss.ravel().astype(float), ff.ravel().astype(float), np.zeros(ss.size), p0, (0, 0, 0))
+            cl = Cmp(p, rl)
+            cl.xyz("PixelLUT.xyz", np.asarray(lut.xyz).reshape(3, -1).T)
+            cl.angles("PixelLUT.tth/eta", np.asarray(lut.tth).ravel(), np.asarray(lut.eta).ravel())
+            e = np.abs(np.asarray(lut.k).reshape(3, -1) - rl["k"]).max()
+            if e > cl.gt:
+                cl.add("kvector", "PixelLUT.k", "k", e, cl.gt)
+            e = np.abs(np.asarray(lut.sinthsq).ravel() - np.sin(np.radians(rl["tth"]) / 2) ** 2).max()
+            if e > 1e-13:
+                cl.add("sinthsq", "PixelLUT.sinthsq", "sin^2(theta)", e, 1e-13)
+            c.fails += cl.fails
+        else:
+            c.fails.append(exc_failure("PixelLUT", lut))
     if rec is not None:
         cls = ["omegasign-1"] if (index >> 8) & 1 else []
         if ((index >> 11) & 7) >= 4:
             cls.append("offdiag_flip")
         if (index >> 9) & 3:
             cls.append("neg_pixel")
+        if index % 16 == (mseed + 3) % 16:
+            cls.append("integer_columns")
         rec.case(case, bool(nontrivial(index)), cls, key=index * 1000003 + mseed)
     return c.fails
 
